@@ -316,8 +316,9 @@ def generate(unit_dir, canary=False):
             line_info.append((item_id, True, relfile, None))
             has_requires = False  # no canary for a body that is not verified here
         first_body_brace_done = False
-        if attrs.get("contract_only") and attrs["kind"] == "fn":
+        if (attrs.get("contract_only") or attrs.get("body") == "opaque") and attrs["kind"] == "fn":
             # modular use: signature + requires/ensures only; the body is proved in the home unit
+            # (body=opaque: the function is TRUSTED, marked external_body by its annotations; its body is not used)
             cut = next((k for k, (is_a, t, _) in enumerate(placed) if not is_a and t.strip() == "{"), None)
             if cut is None:
                 raise Undecided("normalise-failed", "%s: no body brace" % item_id)
@@ -347,7 +348,7 @@ def generate(unit_dir, canary=False):
             "sha256_normalised": sha("\n".join(norm_line(l) for l in cur_lines)),
             "changed_vs_baseline": changed, "rules_applied": log, "loops": loops, "raw_text": ex["text"],
             "has_requires": has_requires, "baseline_text": base_text, "current_text": "\n".join(cur_lines),
-            "contract_only": attrs.get("contract_only"),
+            "contract_only": attrs.get("contract_only"), "opaque_body": attrs.get("body") == "opaque",
         })
     return {"text": "\n".join(out_lines) + "\n", "items": items, "line_info": line_info}
 
@@ -368,8 +369,8 @@ def identity_check(gen):
             bodies[cur].append(l)
     problems = []
     for it in gen["items"]:
-        if it.get("contract_only") and it["kind"] == "fn":
-            continue  # body not present here; identity is checked in the unit that proves it
+        if (it.get("contract_only") or it.get("opaque_body")) and it["kind"] == "fn":
+            continue  # body not present here; identity is checked in the unit that proves it (or the fn is trusted)
         got = INLINE_GEN_RE.sub("", "\n".join(bodies.get(it["id"], [])))
         toks = strip_attributes(code_tokens(got))
         back = X.denormalise_tokens(toks)
@@ -377,6 +378,9 @@ def identity_check(gen):
         if conds:
             # the wrapper condition was denormalised too (it may contain nothing to denormalise)
             back = X.invert_n2(back, conds)
+        n5 = [x for x in it["rules_applied"] if x.get("rule") == "N5"]
+        if n5:
+            back = X.invert_n5(back, n5)
         pre = [x for x in it["rules_applied"] if x.get("rule") in ("O1", "N4", "N2b")]
         if pre:
             back = X.invert_prepass(back, pre)
